@@ -95,11 +95,14 @@ CHECKS.update({
                      "enumeration on the real code incl. restarts and swallowed IOErrors; exact bitwise dump/load round trips for Mps, MpDm, Mpo, TTNS and the spill-to-disk path.",
                 technique="contract-based deductive verification of the crash protocol (pyvc ghost file system, z3) + exhaustive fault enumeration of the real function; runtime round-trip contracts",
                 note=OTHER_NOTE + " Trusted: POSIX atomicity of remove/rename/replace; np.savez leaves an unreadable file when interrupted."),
-    "C15": dict(cat="exploration", ref="DESIGN §8 C15",
-                text="Homomorphism contracts den(result) == expression(den(operands)) with an independent exact denotation (integer Pauli / generic letters, never "
+    "C15": dict(cat="other", ref="DESIGN §8 C15, S.2",
+                text="Engine S: the real Op / OpSum arithmetic (+, -, *, scalar multiples, negation, Op.product, OpSum products, squeeze_identity, associativity) executed on "
+                     "leaf operators with indeterminate factors; the exact denotation of each of ~1000 expression shapes equals the expression of the operand denotations as "
+                     "polynomials, i.e. for all factor values. Homomorphism contracts den(result) == expression(den(operands)) with an independent exact denotation (integer Pauli / generic letters, never "
                      "through Mpo or op_mat) over all expressions of depth <= 3 of the public arithmetic, simplify tolerances, squeeze_identity, eq/hash consistency, "
                      "the string layer and Model.check_operator_terms; bounded-exhaustive; two recorded boundary findings.",
-                technique="runtime contracts against an independent exact denotation, exhaustive over expressions of bounded depth (bounded stand-in)",
+                technique="exact symbolic execution of the real operator arithmetic on indeterminate factors (normal-form decision); runtime contracts against an independent "
+                          "exact denotation, exhaustive over expressions of bounded depth (bounded stand-in)",
                 note=OTHER_NOTE),
     "C16": dict(cat="exploration", ref="DESIGN §8 C16",
                 text="Defining relations of every supported symbol of every basis class (symbol list extracted from the op_mat source with ast; uncovered symbols are a "
@@ -179,7 +182,7 @@ def main():
             {"name": "pyvc", "path": "vk/pyvc", "serves_properties": ["C02", "C03", "C04", "C05", "C06", "C14", "C17", "C20"], "kind_free_text": "AST -> verification conditions (loop invariants, call by contract) -> z3/cvc5"},
             {"name": "exact-exec", "path": "vk/symx/exactexec.py", "serves_properties": ["C19"], "kind_free_text": "real source executed on exact rationals / z3 reals"},
             {"name": "effects", "path": "vk/pyvc/effects.py", "serves_properties": ["C13"], "kind_free_text": "alias / effect analysis of the real source against sidecar modifies clauses"},
-            {"name": "symx", "path": "vk/symx", "serves_properties": ["C01", "C02", "C03", "C04", "C07", "C11", "C18"], "kind_free_text": "real NumPy-level code executed on exact symbolic polynomial scalars; identities decided by normal form"},
+            {"name": "symx", "path": "vk/symx", "serves_properties": ["C01", "C02", "C03", "C04", "C07", "C11", "C15", "C18"], "kind_free_text": "real NumPy-level code executed on exact symbolic polynomial scalars; identities decided by normal form"},
             {"name": "rtc", "path": "vk/rtc", "serves_properties": ["C01", "C02", "C03", "C04", "C05", "C06", "C07", "C08", "C09", "C10", "C11", "C12", "C13", "C14", "C15", "C16", "C17", "C18", "C20"], "kind_free_text": "runtime contracts on the real functions, bounded-exhaustive inputs (bounded stand-in, never counted as proved)"},
         ],
         "checks": checks,
